@@ -1,8 +1,10 @@
 (* Model of network/netbios/nbtns/name.go: Validate, FirstLevelEncode, FirstLevelDecode,
    isValidDomainName (hand-written; tied to the Go code by the correspondence check).
-   Go strings are byte lists.  Definitions only. *)
+   Go strings are byte lists.  The constants NetBIOSNameLength (16), EncodedNameLength (32) and
+   ASCII_A (0x41) come from Gen/ConstsC10.v, regenerated from the source on every run.
+   Definitions only. *)
 From Coq Require Import List NArith Bool.
-From Mant Require Import Prim.R Prim.Bytes.
+From Mant Require Import Prim.R Prim.Bytes Gen.ConstsC10.
 Import ListNotations.
 Open Scope N_scope.
 
@@ -59,17 +61,18 @@ Definition is_valid_domain_name (name : list N) : bool :=
 
 (* NetBIOSName.Validate: true = nil error *)
 Definition validate (n : nbname) : bool :=
-  if 16 <? lenN (nb_name n) then false
+  if c10_NetBIOSNameLength <? lenN (nb_name n) then false
   else if hd 0 (nb_name n) =? 42 then false   (* strings.HasPrefix(n.Name, "*") *)
   else if negb (is_nil (nb_scope n)) then is_valid_domain_name (nb_scope n)
   else true.
 
-(* name := make([]byte, 16); copy(name, n.Name); pad with ' ' *)
-Definition pad16 (name : list N) : list N := name ++ repeatN space (16 - length name).
+(* name := make([]byte, NetBIOSNameLength); copy(name, n.Name); pad with ' ' *)
+Definition pad16 (name : list N) : list N :=
+  name ++ repeatN space (N.to_nat c10_NetBIOSNameLength - length name).
 
 (* encoded[2i] = ((b >> 4) & 0x0F) + 'A' ; encoded[2i+1] = (b & 0x0F) + 'A'   (byte arithmetic, never wraps: <= 0x50) *)
 Definition enc_byte (b : N) : list N :=
-  [wrap8 (N.land (N.shiftr b 4) 15 + 65); wrap8 (N.land b 15 + 65)].
+  [wrap8 (N.land (N.shiftr b 4) 15 + c10_ASCII_A); wrap8 (N.land b 15 + c10_ASCII_A)].
 
 (* NetBIOSName.FirstLevelEncode *)
 Definition first_level_encode (n : nbname) : R (list N) :=
@@ -84,8 +87,8 @@ Fixpoint decode_pairs (l : list N) : R (list N) :=
   | [] => Ok []
   | [_] => Panic (* index out of range; unreachable, the length is checked to be 32 *)
   | h :: lo :: r =>
-      let high := wrap8 (h + 256 - 65) in
-      let low := wrap8 (lo + 256 - 65) in
+      let high := wrap8 (h + 256 - c10_ASCII_A) in
+      let low := wrap8 (lo + 256 - c10_ASCII_A) in
       if (15 <? high) || (15 <? low) then Err
       else let* r' := decode_pairs r in
            Ok (wrap8 (N.lor (wrap8 (N.shiftl high 4)) low) :: r')
@@ -103,7 +106,7 @@ Fixpoint trim_right_sp (l : list N) : list N :=
 (* FirstLevelDecode *)
 Definition first_level_decode (encoded : list N) : R nbname :=
   let (enc, rest) := split_first_dot encoded in
-  if negb (lenN enc =? 32) then Err
+  if negb (lenN enc =? c10_EncodedNameLength) then Err
   else
     let* decoded := decode_pairs enc in
     Ok (mk_nbname (trim_right_sp decoded) (match rest with Some s => s | None => [] end)).
